@@ -14,6 +14,8 @@ import (
 	"fmt"
 	"os"
 
+	"github.com/golang/snappy"
+
 	"github.com/oasisprotocol/oasis-core/go/common/crypto/hash"
 	"github.com/oasisprotocol/oasis-core/go/storage/mkvs/checkpoint"
 	"github.com/oasisprotocol/oasis-core/go/storage/mkvs/node"
@@ -25,7 +27,7 @@ import (
 type REv struct {
 	K     string `json:"k"`               // start startf abort chunk finalize
 	Slot  int    `json:"slot,omitempty"`  // startf: forged slot; chunk: slot
-	Kind  int    `json:"kind,omitempty"`  // chunk: 0 genuine, 1 bit-flipped, 2 file of the other tree
+	Kind  int    `json:"kind,omitempty"`  // chunk / startf: 0 genuine, 1 bit-flipped, 2 file of the other tree, 3 not snappy (+ trailer), 4 genuine + reserved snappy frame + trailer, 5 snappy(not CBOR), 6 snappy(CBOR(no proof))
 	Right bool   `json:"right,omitempty"` // finalize: with the checkpoint's root
 }
 
@@ -56,6 +58,7 @@ func otherSpec(sp TreeSpec) TreeSpec {
 }
 
 type rresult struct {
+	violAt int // number of calls up to and including the first one that violated (0: none / at the end)
 	codes []int
 	viol  []string
 	n     int
@@ -92,6 +95,14 @@ func runRestorerCase(c RCase) (res *rresult) {
 		if slot >= 0 && slot < n {
 			g = cp.chunks[slot]
 		}
+		trailer := bytes.Repeat([]byte{0xAA}, 64)
+		snap := func(raw []byte) []byte {
+			var buf bytes.Buffer
+			sw := snappy.NewBufferedWriter(&buf)
+			_, _ = sw.Write(raw)
+			_ = sw.Close()
+			return buf.Bytes()
+		}
 		switch kind {
 		case 1:
 			b := append([]byte{}, g...)
@@ -99,6 +110,14 @@ func runRestorerCase(c RCase) (res *rresult) {
 			return b
 		case 2:
 			return foreign(slot)
+		case 3: // not a snappy stream at all, longer than a frame header
+			return append([]byte(fmt.Sprintf("this is not a snappy stream %d ", slot)), trailer...)
+		case 4: // a complete valid stream, then a reserved unskippable frame, then more bytes
+			return append(append(append([]byte{}, g...), 0x02, 0x04, 0x00, 0x00, 0x01, 0x02, 0x03, byte(slot)), trailer...)
+		case 5: // valid snappy, not CBOR
+			return snap(append([]byte{0xff, 0xff, byte(slot)}, trailer...))
+		case 6: // valid snappy and CBOR, no proof of this root
+			return snap(append([]byte{0x53}, []byte(fmt.Sprintf("this chunk is bogus %2d", slot%100))[:19]...))
 		}
 		return g
 	}
@@ -120,6 +139,7 @@ func runRestorerCase(c RCase) (res *rresult) {
 	}
 	imported := map[int]bool{}
 	finalized := false
+	var curMeta *checkpoint.Metadata
 	for _, e := range c.Events {
 		code := cOther
 		switch e.K {
@@ -128,12 +148,13 @@ func runRestorerCase(c RCase) (res *rresult) {
 			meta.Chunks = append([]hash.Hash{}, cp.meta.Chunks...)
 			if e.K == "startf" {
 				var h hash.Hash
-				h.FromBytes(foreign(e.Slot))
+				h.FromBytes(file(e.Slot, e.Kind))
 				meta.Chunks[e.Slot] = h
 			}
 			switch err := rs.StartRestore(ctx, &meta); {
 			case err == nil:
 				code = cOk
+				curMeta = &meta
 			case err == checkpoint.ErrRestoreAlreadyInProgress:
 				code = cInProgress
 			}
@@ -142,7 +163,19 @@ func runRestorerCase(c RCase) (res *rresult) {
 				code = cOk
 			}
 		case "chunk":
-			done, err := rs.RestoreChunk(ctx, uint64(e.Slot), bytes.NewReader(file(e.Slot, e.Kind)))
+			data := file(e.Slot, e.Kind)
+			done, err := rs.RestoreChunk(ctx, uint64(e.Slot), bytes.NewReader(data))
+			// S: bytes that match the manifest digest of their slot are never "damaged in transit"
+			if errClass(err) == "corrupted" && curMeta != nil && e.Slot >= 0 && e.Slot < len(curMeta.Chunks) {
+				var h hash.Hash
+				h.FromBytes(data)
+				if h.Equal(&curMeta.Chunks[e.Slot]) {
+					if res.violAt == 0 {
+						res.violAt = len(res.codes) + 1
+					}
+					res.viol = append(res.viol, fmt.Sprintf("chunk-matching-manifest-digest-answered-with-retryable-ErrChunkCorrupted (slot %d, file kind %d: the caller refetches the same bytes forever; restorer still active: %v)", e.Slot, e.Kind, rs.GetCurrentCheckpoint() != nil))
+				}
+			}
 			switch errClass(err) {
 			case "ok":
 				code = cOk
@@ -208,6 +241,7 @@ func genRestorerCase(r *prng.R, i int) RCase {
 func genSchedule(r *prng.R, n int, canForge func(int) bool) []REv {
 	var evs []REv
 	active := false
+	fj, fk := -1, 0 // the forged slot and file kind of the session in progress
 	pend := map[int]bool{}
 	steps := 4 + r.Intn(10+3*n)
 	for len(evs) < steps {
@@ -216,13 +250,20 @@ func genSchedule(r *prng.R, n int, canForge func(int) bool) []REv {
 			if r.Chance(45) {
 				j := r.Intn(n)
 				if canForge(j) {
-					evs = append(evs, REv{K: "startf", Slot: j})
+					k := []int{2, 3, 4, 5, 6, 1, 3, 4}[r.Intn(8)]
+					evs = append(evs, REv{K: "startf", Slot: j, Kind: k})
+					if !active {
+						active, fj, fk = true, j, k
+						for i := 0; i < n; i++ {
+							pend[i] = true
+						}
+					}
 					break
 				}
 			}
 			evs = append(evs, REv{K: "start"})
 			if !active {
-				active = true
+				active, fj = true, -1
 				for i := 0; i < n; i++ {
 					pend[i] = true
 				}
@@ -247,7 +288,13 @@ func genSchedule(r *prng.R, n int, canForge func(int) bool) []REv {
 					}
 				}
 			}
-			kind := []int{0, 0, 0, 0, 0, 1, 2}[r.Intn(7)]
+			kind := []int{0, 0, 0, 0, 0, 0, 1, 2, 3, 4, 5, 6}[r.Intn(12)]
+			if active && fj >= 0 && r.Chance(35) {
+				slot, kind = fj, fk // the file the forged manifest names
+				if r.Chance(50) {
+					evs = append(evs, REv{K: "chunk", Slot: slot, Kind: kind}) // the caller's retry
+				}
+			}
 			evs = append(evs, REv{K: "chunk", Slot: slot, Kind: kind})
 			if active && kind == 0 {
 				delete(pend, slot)
@@ -267,7 +314,7 @@ func genSchedule(r *prng.R, n int, canForge func(int) bool) []REv {
 		}
 		for _, i := range order {
 			if r.Chance(15) {
-				evs = append(evs, REv{K: "chunk", Slot: i, Kind: 1 + r.Intn(2)})
+				evs = append(evs, REv{K: "chunk", Slot: i, Kind: 1 + r.Intn(6)})
 			}
 			evs = append(evs, REv{K: "chunk", Slot: i, Kind: 0})
 			if r.Chance(15) {
@@ -286,7 +333,7 @@ func coqREv(e REv) string {
 	case "start":
 		return "CStart None"
 	case "startf":
-		return fmt.Sprintf("CStart (Some %d)", e.Slot)
+		return fmt.Sprintf("CStart (Some (%d, %d))", e.Slot, e.Kind)
 	case "abort":
 		return "CAbort"
 	case "chunk":
@@ -392,7 +439,15 @@ func restorerMain(seed uint64, ncases int, out, replay string) {
 				continue
 			}
 			violSeen[kind] = true
-			sum.Violations = append(sum.Violations, map[string]any{"what": v, "case": c})
+			sc := c
+			if res.violAt > 0 && res.violAt < len(c.Events) {
+				// the calls after the violating one are irrelevant
+				sc.Events = append([]REv{}, c.Events[:res.violAt]...)
+				if r2 := runRestorerCase(sc); len(r2.viol) == 0 {
+					sc = c
+				}
+			}
+			sum.Violations = append(sum.Violations, map[string]any{"what": v, "case": sc})
 		}
 		if replay != "" {
 			fmt.Printf("codes=%v\nviolations=%v\n", res.codes, res.viol)
